@@ -27,8 +27,83 @@ static unsigned long long g_cells = 0, g_mismatch = 0, g_asserts = 0, g_strlen_c
 static unsigned long long g_per_op[16];
 static const char* const op_names[] = {"assign_string_cstr", "assign_string_range", "assign_range_vector",
                                        "assign_range_list", "assign_iter", "assign_ilist", "assign_count",
-                                       "fill", "raw_assign_range", "strlen", "strlen_r"};
+                                       "fill", "raw_assign_range", "strlen", "strlen_r", "assign_single_pass_iter",
+                                       "assign_range_single_pass", "assign_string_single_pass_range"};
 static const char alphabet[3] = {'\0', 'a', 'b'};
+
+// genuinely single-pass input iterator (istream_iterator semantics): all copies share one source position, reading through
+// any copy consumes the source, the current element is cached in the iterator
+template<typename V>
+struct sp_source
+{
+    const V* cur;
+    const V* end;
+};
+
+template<typename V>
+struct sp_iter
+{
+    using iterator_category = std::input_iterator_tag;
+    using value_type = V;
+    using difference_type = std::ptrdiff_t;
+    using pointer = const V*;
+    using reference = const V&;
+    sp_source<V>* src;
+    V cached;
+    bool at_end;
+    sp_iter() : src(nullptr), cached(), at_end(true)
+    {
+    }
+    explicit sp_iter(sp_source<V>& s) : src(&s), cached(), at_end(false)
+    {
+        read();
+    }
+    void read()
+    {
+        if(src->cur == src->end)
+            at_end = true;
+        else
+            cached = *src->cur++;
+    }
+    reference operator*() const
+    {
+        return cached;
+    }
+    sp_iter& operator++()
+    {
+        read();
+        return *this;
+    }
+    sp_iter operator++(int)
+    {
+        auto t = *this;
+        read();
+        return t;
+    }
+    bool operator==(const sp_iter& o) const
+    {
+        return at_end == o.at_end;
+    }
+    bool operator!=(const sp_iter& o) const
+    {
+        return at_end != o.at_end;
+    }
+};
+
+// a range that can be traversed once (like std::ranges::istream_view / a generator)
+template<typename V>
+struct sp_range
+{
+    sp_source<V> src;
+    sp_iter<V> begin()
+    {
+        return sp_iter<V>{src};
+    }
+    sp_iter<V> end()
+    {
+        return sp_iter<V>{};
+    }
+};
 static int g_samples = 0;
 
 static std::string hex(const unsigned char* p, std::size_t n)
@@ -243,6 +318,17 @@ struct tester
                             bool as = VRT_TRAPPED(ret = static_cast<std::size_t>(a.assign_string(s, modes[m]) - a.begin()));
                             check(1, m, init, in, L, buf, ret, e, as);
                         }
+                        // (13) assign_string(single-pass range, mode)
+                        {
+                            Value tmp[C14_MAXN + 1];
+                            for(std::size_t i = 0; i < L; i++)
+                                tmp[i] = static_cast<Value>(in[i]);
+                            sp_range<Value> r{{tmp, tmp + L}};
+                            prep(buf, init);
+                            expectation e = ref_assign(N, init, in, L, m);
+                            bool as = VRT_TRAPPED(ret = static_cast<std::size_t>(a.assign_string(r, modes[m]) - a.begin()));
+                            check(13, m, init, in, L, buf, ret, e, as);
+                        }
                     }
                     // default eos mode of both assign_string overloads is `all`
                     if(!has_nul)
@@ -284,6 +370,24 @@ struct tester
                         prep(buf, init);
                         bool as = VRT_TRAPPED(ret = static_cast<std::size_t>(a.assign(tmp, tmp + L) - a.begin()));
                         check(4, -1, init, in, L, buf, ret, e, as);
+                    }
+                    // (11) assign(first, last) with a single-pass input iterator, (12) assign_range of a single-pass range
+                    {
+                        Value tmp[C14_MAXN + 1];
+                        for(std::size_t i = 0; i < L; i++)
+                            tmp[i] = static_cast<Value>(in[i]);
+                        {
+                            sp_source<Value> src{tmp, tmp + L};
+                            prep(buf, init);
+                            bool as = VRT_TRAPPED(ret = static_cast<std::size_t>(a.assign(sp_iter<Value>{src}, sp_iter<Value>{}) - a.begin()));
+                            check(11, -1, init, in, L, buf, ret, e, as);
+                        }
+                        {
+                            sp_range<Value> r{{tmp, tmp + L}};
+                            prep(buf, init);
+                            bool as = VRT_TRAPPED(ret = static_cast<std::size_t>(a.assign_range(r) - a.begin()));
+                            check(12, -1, init, in, L, buf, ret, e, as);
+                        }
                     }
                     // (5) assign(initializer_list)
                     {
@@ -370,7 +474,7 @@ struct for_n<0>
 int main()
 {
     for_n<C14_MAXN>::run();
-    for(int i = 0; i < 11; i++)
+    for(int i = 0; i < 14; i++)
         std::printf("OP %s %llu\n", op_names[i], g_per_op[i]);
     std::printf("TOTAL cells=%llu strlen_cells=%llu mismatches=%llu asserts=%llu\n", g_cells, g_strlen_cells, g_mismatch,
                 g_asserts);
